@@ -305,6 +305,8 @@ structure StarCoreOK (ci : Bool) (sg : StarGlob) : Prop where
   last : ∃ cl, sg.text.getLast? = some cl ∧ cl ≠ 47 ∧ cl ≠ 92 ∧ cl ≠ 32 ∧ isWs cl = false
   noEscCi : ci = true → 92 ∉ sg.text
   endsDstar : endsWith sg.text [47, 42, 42] = sg.post
+  /-- every `**` follows a `/` or starts the pattern, so git's separate comparison of the literal prefix changes nothing -/
+  dpos : GitSpec.okDstarPos sg.text = true
 
 def okStarCore (ci : Bool) (sg : StarGlob) : Bool :=
   sg.wf true && sg.text.contains 47 &&
@@ -315,13 +317,13 @@ def okStarCore (ci : Bool) (sg : StarGlob) : Bool :=
    | some cl => cl != 47 && cl != 92 && cl != 32 && !isWs cl
    | none => false) &&
   (!ci || !sg.text.contains 92) &&
-  (endsWith sg.text [47, 42, 42] == sg.post)
+  (endsWith sg.text [47, 42, 42] == sg.post) && GitSpec.okDstarPos sg.text
 
 theorem starCoreOK_of (ci : Bool) (sg : StarGlob) (h : okStarCore ci sg = true) : StarCoreOK ci sg := by
   unfold okStarCore at h
   simp only [Bool.and_eq_true, beq_iff_eq] at h
-  obtain ⟨⟨⟨⟨⟨h1, h2⟩, h3⟩, h4⟩, h5⟩, h6⟩ := h
-  refine ⟨h1, h2, ?_, ?_, ?_, h6⟩
+  obtain ⟨⟨⟨⟨⟨⟨h1, h2⟩, h3⟩, h4⟩, h5⟩, h6⟩, h7⟩ := h
+  refine ⟨h1, h2, ?_, ?_, ?_, h6, h7⟩
   · cases hc : sg.text with
     | nil => simp [hc] at h3
     | cons c0 tl =>
@@ -485,7 +487,8 @@ theorem lineAgree_star (ci neg abs dir : Bool) (sg : StarGlob) (h : StarCoreOK c
       tokensK_eq_atomsMatch_star (giOpts ci) _ (starGlob_toks_starTok true (rgStar sg) (rgStar_wf sg h.wf)),
       show docOpts (giOpts ci) = wmOpts ci true from rfl,
       atoms_rgStar (wmOpts ci true) rfl sg, wm_starGlob ci sg h.wf h.noEscCi]
-  simp only [GiGlob.hits, GitSpec.patMatches, hm, joinComps_eq, Bool.false_eq_true, ↓reduceIte]
+  simp only [GiGlob.hits, GitSpec.patMatches, GitSpec.matchPathname_eq_wm _ _ _ h.dpos, hm, joinComps_eq,
+    Bool.false_eq_true, ↓reduceIte]
   simp only [rgGlobS]
   simp [Bool.and_comm]
 
